@@ -34,8 +34,8 @@ def main():
     proof = C.proof_status(pid)
     hyg = C.hygiene()
     broken = []          # proof obligations / ties that no longer check
-    if not binfo["gen_ok"]:
-        broken.append("translator: tools/gen.py failed on /repo's current source: " + binfo["log"][-400:])
+    if not binfo["gen_ok"] and (pid in binfo.get("gen_failed_for", []) or "*" in binfo.get("gen_failed_for", [])):
+        broken.append("translator: a generator this property depends on failed on /repo's current source: " + binfo["log"][-400:])
     if not proof["ok"]:
         broken.append("theorems of Properties/%s.v no longer check: %s" % (pid, proof["log"][-600:]))
     chk = None
